@@ -24,3 +24,24 @@ func corpusEnums() []*modSpec {
 			modFile{"sub/sub.go", "package sub\n\ntype E int\n\nconst (\n\tP E = iota + 3\n\tQ\n)\n"}),
 	}
 }
+
+func corpusUnions() []*modSpec {
+	mk := func(name, src string, extra ...modFile) *modSpec {
+		return &modSpec{Name: name, ModPath: "example.com/org/models", Target: "models.go",
+			Files: append([]modFile{{"models.go", src}}, extra...)}
+	}
+	return []*modSpec{
+		mk("union-basic", "package models\n\ntype U interface{ isU() }\n\ntype A struct{ X int }\ntype B struct{ Y string }\ntype N int\n\nfunc (A) isU() {}\nfunc (B) isU() {}\nfunc (N) isU() {}\n\ntype S struct {\n\tV U\n\tL []U\n}\n"),
+		mk("union-pointer-receiver", "package models\n\ntype U interface{ isU() }\n\ntype A struct{ X int }\ntype P struct{ Y int }\n\nfunc (A) isU() {}\nfunc (*P) isU() {}\n\ntype S struct{ V U; Q P }\n"),
+		mk("union-two-unions-one-member", "package models\n\ntype U1 interface{ is1() }\ntype U2 interface{ is2() }\n\ntype A struct{ X int }\ntype B struct{ Y int }\n\nfunc (A) is1() {}\nfunc (A) is2() {}\nfunc (B) is2() {}\n\ntype S struct {\n\tV1 U1\n\tV2 U2\n}\n\ntype T struct{ Only U1 }\n"),
+		mk("union-not-analysed", "package models\n\ntype U1 interface{ is1() }\ntype U2 interface{ is2() }\n\ntype A struct{ X int }\n\nfunc (A) is1() {}\nfunc (A) is2() {}\n\ntype S struct{ V1 U1 }\n", modFile{"other.go", "package models\n\ntype Hidden struct{ V U2 }\n"}),
+		mk("union-through-alias", "package models\n\ntype U interface{ isU() }\n\ntype A struct{ X int }\n\nfunc (A) isU() {}\n\ntype AliasA = A\n\ntype S struct {\n\tDirect A\n\tVia AliasA\n\tV U\n}\n"),
+		mk("union-alias-first", "package models\n\ntype U interface{ isU() }\n\ntype A struct{ X int }\n\nfunc (A) isU() {}\n\ntype AliasA = A\n\ntype S struct {\n\tVia AliasA\n\tDirect A\n\tV U\n}\n"),
+		mk("union-empty-interface-named", "package models\n\ntype Any interface{}\n\ntype A struct{ X int }\ntype N int\n\ntype S struct{ V Any }\n"),
+		mk("union-foreign-implementer", "package models\n\nimport \"example.com/org/models/sub\"\n\ntype U interface{ IsU() }\n\ntype A struct{ X int }\n\nfunc (A) IsU() {}\n\ntype S struct {\n\tV U\n\tF sub.F\n}\n",
+			modFile{"sub/sub.go", "package sub\n\ntype F struct{ Z int }\n\nfunc (F) IsU() {}\n"}),
+		mk("union-embedded-interface", "package models\n\ntype Base interface{ isBase() }\ntype Ext interface {\n\tBase\n\tisExt()\n}\n\ntype A struct{ X int }\ntype B struct{ Y int }\n\nfunc (A) isBase() {}\nfunc (B) isBase() {}\nfunc (B) isExt() {}\n\ntype S struct {\n\tV Base\n\tW Ext\n}\n"),
+		mk("union-only-toplevel", "package models\n\ntype U interface{ isU() }\n\ntype A struct{ X int }\n\nfunc (A) isU() {}\n"),
+		mk("union-map-value", "package models\n\ntype U interface{ isU() }\n\ntype A struct{ X int }\ntype L []int\n\nfunc (A) isU() {}\nfunc (L) isU() {}\n\ntype M map[string]U\n\ntype S struct{ D M }\n"),
+	}
+}
